@@ -13,6 +13,13 @@ INF = float('inf')
 NEVER = INF
 
 
+class AtInf(float):
+    """the operation ends when the clock reads infinity (as opposed to never)"""
+
+
+AT_INF = AtInf('inf')
+
+
 class Invalid(Exception):
     """The program is not a valid usim program (e.g. start date in the past)"""
 
@@ -58,8 +65,37 @@ class Model:
             return t0
         if k == 'ETERNITY':
             return NEVER
+        if k in ('AND', 'OR'):
+            # connectives over time atoms: the first candidate moment >= t0 at which the expression holds
+            cands = sorted({t0} | {self.T(x[1]) for x in self.atoms(e) if self.T(x[1]) >= t0})
+            for t in cands:
+                if self.holds(e, t):
+                    return t
+            return NEVER
         if k in self.triggers:
             return self.triggers[k](e, t0)
+        raise ValueError(e)
+
+    def atoms(self, e):
+        if e[0] in ('AND', 'OR'):
+            out = []
+            for x in e[1:]:
+                out += self.atoms(x)
+            return out
+        return [e]
+
+    def holds(self, e, t):
+        k = e[0]
+        if k == 'GE':
+            return t >= self.T(e[1])
+        if k == 'LT':
+            return t < self.T(e[1])
+        if k == 'EQ':
+            return t == self.T(e[1])
+        if k == 'AND':
+            return all(self.holds(x, t) for x in e[1:])
+        if k == 'OR':
+            return any(self.holds(x, t) for x in e[1:])
         raise ValueError(e)
 
     def block(self, act, script, path, t0, deadline):
@@ -81,7 +117,7 @@ class Model:
     def op(self, act, op, pc, s, deadline):
         k = op[0]
         if k == 'D':
-            return s + op[1]
+            return AT_INF if num(op[1]) == INF else s + num(op[1])
         if k in ('EQ', 'GE', 'LT'):
             return self.trigger(op, s)
         if k in ('INSTANT', 'SPIN'):
@@ -218,7 +254,10 @@ def judge_times(model, log, tol=0, only=None):
             elif rec['end'] != e:
                 msgs.append('%s %r completed at %r, expected exactly %r' % (act, pc, rec['end'], e))
         elif e == dl:
-            if e == NEVER:
+            if isinstance(e, AtInf):
+                if rec.get('end') != INF:
+                    msgs.append('%s %r should resume when the clock reads infinity, got %r' % (act, pc, rec))
+            elif e == NEVER:
                 if 'end' in rec or 'exc' in rec:
                     msgs.append('%s %r left its wait at %r although it can never resume' % (
                         act, pc, rec.get('end', rec.get('exc'))))
